@@ -40,6 +40,28 @@ enum Guard<T> {
 
 /// Runs `f` (a call into the code under test) on its own thread under catch_unwind and a watchdog.
 /// On expiry the thread is detached; the caller reports `no_progress` and continues.
+
+/// `from_coord_iter_parallel` takes any iterator: the harness hands the same coordinates over in iterators of every
+/// size-hint shape (exact `vec::IntoIter`; `filter` = (0, Some(n)); `from_fn` = (0, None); `flat_map`; `chain` with an empty
+/// head; `skip_while`), chosen from the coordinates themselves so that a case replays identically. An operator that trusts
+/// `size_hint` (empty fast path, pre-sized buffers) loses or invents items only on the lazy shapes (seed C14-13).
+pub static COORD_ITER_SHAPES: [std::sync::atomic::AtomicU64; 6] = [const { std::sync::atomic::AtomicU64::new(0) }; 6];
+fn coord_iter_shaped(v: Vec<TileCoord3>) -> Box<dyn Iterator<Item = TileCoord3> + Send> {
+	let shape = (v.len() + v.first().map(|c| (c.x as usize) + (c.y as usize)).unwrap_or(0)) % 6;
+	COORD_ITER_SHAPES[shape].fetch_add(1, SeqCst);
+	match shape {
+		0 => Box::new(v.into_iter()),
+		1 => Box::new(v.into_iter().filter(|_| true)),
+		2 => {
+			let mut it = v.into_iter();
+			Box::new(std::iter::from_fn(move || it.next()))
+		}
+		3 => Box::new(v.into_iter().flat_map(|c| std::iter::once(c))),
+		4 => Box::new(Vec::<TileCoord3>::new().into_iter().filter(|_| true).chain(v.into_iter().filter(|_| true))),
+		_ => Box::new(v.into_iter().skip_while(|_| false)),
+	}
+}
+
 fn guarded<T: Send + 'static>(limit: Duration, f: impl FnOnce() -> T + Send + 'static) -> Guard<T> {
 	let (tx, rx) = std::sync::mpsc::channel();
 	std::thread::spawn(move || {
@@ -375,7 +397,7 @@ fn execute(rt: &Arc<tokio::runtime::Runtime>, op: Op, window: usize, k: Option<u
 				g1.enter(cb_idx[&a]);
 				Op::Fmap.f(a).map(|r| res_blob(r, big))
 			}),
-			Op::Coord => TileStream::from_coord_iter_parallel(items.iter().map(|(c, _)| coord_of(*c)).collect::<Vec<_>>().into_iter(), move |c| {
+			Op::Coord => TileStream::from_coord_iter_parallel(coord_iter_shaped(items.iter().map(|(c, _)| coord_of(*c)).collect::<Vec<_>>()), move |c| {
 				let a = id_of(&c);
 				g1.enter(cb_idx[&a]);
 				Op::Coord.f(a).map(|r| res_blob(r, big))
@@ -835,7 +857,7 @@ fn panic_case(cx: &mut Ctx, op: Op, len: usize, at: usize) {
 					if a == bad { panic!("callback failed"); }
 					Op::Fmap.f(a).map(|r| res_blob(r, big))
 				}),
-				Op::Coord => TileStream::from_coord_iter_parallel(its.iter().map(|(c, _)| coord_of(*c)).collect::<Vec<_>>().into_iter(), move |c| {
+				Op::Coord => TileStream::from_coord_iter_parallel(coord_iter_shaped(its.iter().map(|(c, _)| coord_of(*c)).collect::<Vec<_>>()), move |c| {
 					let a = id_of(&c);
 					if a == bad { panic!("callback failed"); }
 					Op::Coord.f(a).map(|r| res_blob(r, big))
@@ -1009,7 +1031,7 @@ fn progress_cases(cx: &mut Ctx, rng: &mut Rng, full: usize) {
 							let stage1 = match op {
 								Op::Map => source.map_blob_parallel(move |b| res_blob(Op::Map.f(val_of(&b)).unwrap(), big)),
 								Op::Fmap => source.filter_map_blob_parallel(move |b| Op::Fmap.f(val_of(&b)).map(|r| res_blob(r, big))),
-								Op::Coord => TileStream::from_coord_iter_parallel(its.iter().map(|(c, _)| coord_of(*c)).collect::<Vec<_>>().into_iter(), move |c| Op::Coord.f(id_of(&c)).map(|r| res_blob(r, big))),
+								Op::Coord => TileStream::from_coord_iter_parallel(coord_iter_shaped(its.iter().map(|(c, _)| coord_of(*c)).collect::<Vec<_>>()), move |c| Op::Coord.f(id_of(&c)).map(|r| res_blob(r, big))),
 							};
 							// chained: two further parallel stages that keep the blob
 							let stage = if kind == "chained" {
@@ -1059,7 +1081,7 @@ fn reuse_cases(cx: &mut Ctx, rng: &mut Rng) {
 				let mut stream = match op {
 					Op::Map => TileStream::from_vec(its.iter().map(|(c, a)| (coord_of(*c), blob_of(*a))).collect()).map_blob_parallel(move |b| res_blob(Op::Map.f(val_of(&b)).unwrap(), big)),
 					Op::Fmap => TileStream::from_vec(its.iter().map(|(c, a)| (coord_of(*c), blob_of(*a))).collect()).filter_map_blob_parallel(move |b| Op::Fmap.f(val_of(&b)).map(|r| res_blob(r, big))),
-					Op::Coord => TileStream::from_coord_iter_parallel(its.iter().map(|(c, _)| coord_of(*c)).collect::<Vec<_>>().into_iter(), move |c| Op::Coord.f(id_of(&c)).map(|r| res_blob(r, big))),
+					Op::Coord => TileStream::from_coord_iter_parallel(coord_iter_shaped(its.iter().map(|(c, _)| coord_of(*c)).collect::<Vec<_>>()), move |c| Op::Coord.f(id_of(&c)).map(|r| res_blob(r, big))),
 				};
 				let mut got = vec![];
 				while got.len() < take {
@@ -1142,7 +1164,10 @@ fn all_digit_vectors(len: usize, window: usize) -> Vec<Vec<usize>> {
 pub fn run(args: &Args) {
 	quiet_panics();
 	let mut out = Out::new(&args.out);
-	out.rule = "real TileStream::{map_blob_parallel, filter_map_blob_parallel, from_coord_iter_parallel} (+ collect / for_each_buffered k) on a 24-worker tokio runtime with gate-controlled callbacks: the controller releases one started item at a time and the released result must pass a tap before the next release; window = num_cpus::get() varied through thread CPU affinity; ALL completion orders (all digit vectors d[i] < min(window, len-i)) for len ≤ 6 (thorough ≤ 7) at the full window and for small windows, plus reverse/rotate/interleave/seeded-random orders for streams of 10^2..10^4 items, straggler schedules (first / middle / last item held back), stream lengths window-1..window+2 at concurrency limits 1, 2 and the full window, bursts (several releases at once, oracle only), chunk sizes len-1 / len / len+1, callbacks that panic on the first / middle / last item (must fail loudly), the progress clause at concurrency limits 1 / 2 / full (plain, behind a source that stays Pending until the stream has drained, and with chained parallel stages), every run under a watchdog (no_progress), streams dropped after partial consumption, a stream mapped twice, the sequential combinators (stream C14s), and TileConverter::new_tile_recompressor(src,dst,force).process_stream for all 18 configurations over streams with one truncated/garbage/empty/other-codec/uncompressed tile among valid ones (loud failure or exactly one output per input) and over streams of 3000-5000 tiles mixing large slow payloads with runs of identical small ones and alternating pairs (every coordinate must decode to its own input); non-trivial = the completion order differs from the submission order; distinct by case text".into();
+	for (i, name) in ["exact", "filter", "from_fn", "flat_map", "chain_empty_head", "skip_while"].iter().enumerate() {
+		out.count_n(&format!("coord_iter_shape_{name}"), COORD_ITER_SHAPES[i].load(SeqCst));
+	}
+	out.rule = "real TileStream::{map_blob_parallel, filter_map_blob_parallel, from_coord_iter_parallel (coordinates handed over in iterators of every size-hint shape: exact, filter, from_fn, flat_map, chain, skip_while)} (+ collect / for_each_buffered k) on a 24-worker tokio runtime with gate-controlled callbacks: the controller releases one started item at a time and the released result must pass a tap before the next release; window = num_cpus::get() varied through thread CPU affinity; ALL completion orders (all digit vectors d[i] < min(window, len-i)) for len ≤ 6 (thorough ≤ 7) at the full window and for small windows, plus reverse/rotate/interleave/seeded-random orders for streams of 10^2..10^4 items, straggler schedules (first / middle / last item held back), stream lengths window-1..window+2 at concurrency limits 1, 2 and the full window, bursts (several releases at once, oracle only), chunk sizes len-1 / len / len+1, callbacks that panic on the first / middle / last item (must fail loudly), the progress clause at concurrency limits 1 / 2 / full (plain, behind a source that stays Pending until the stream has drained, and with chained parallel stages), every run under a watchdog (no_progress), streams dropped after partial consumption, a stream mapped twice, the sequential combinators (stream C14s), and TileConverter::new_tile_recompressor(src,dst,force).process_stream for all 18 configurations over streams with one truncated/garbage/empty/other-codec/uncompressed tile among valid ones (loud failure or exactly one output per input) and over streams of 3000-5000 tiles mixing large slow payloads with runs of identical small ones and alternating pairs (every coordinate must decode to its own input); non-trivial = the completion order differs from the submission order; distinct by case text".into();
 	let aff = Affinity::new();
 	// worker threads are created now, with the unrestricted affinity
 	let rt = Arc::new(tokio::runtime::Builder::new_multi_thread().worker_threads(24).enable_all().build().unwrap());
